@@ -209,6 +209,35 @@ func (c *Ctx) FinishSim(s *simrt.Sim, v *simrt.Verdict) {
 	}
 }
 
+// ReportRaces turns the reports of the happens-before monitor (if it was
+// enabled for s) into violations, one per pair of call sites.
+func (c *Ctx) ReportRaces(s *simrt.Sim) {
+	if s.HB != nil && s.HB.CrossChecked > 0 {
+		c.Probe("hb:designated-state-accessed-by-several-goroutines")
+	}
+	if s.HB == nil || len(s.HB.Races) == 0 {
+		return
+	}
+	races := append([]string(nil), s.HB.Races...)
+	sort.Strings(races)
+	seen := map[string]bool{}
+	for _, r := range races {
+		var sites []string
+		for _, f := range strings.Fields(r) {
+			if strings.Contains(f, ".go:") {
+				sites = append(sites, f)
+			}
+		}
+		sort.Strings(sites)
+		k := strings.Join(sites, "|")
+		if seen[k] {
+			continue
+		}
+		seen[k] = true
+		c.Violation("data-race", "unsynchronised conflicting accesses to designated interpreter state (%d reports in this run): %s", len(races), r)
+	}
+}
+
 func envInt(name string, def int64) int64 {
 	if v := os.Getenv(name); v != "" {
 		n, err := strconv.ParseInt(v, 10, 64)
